@@ -133,9 +133,18 @@ Definition gobs (l : glabel) : option gevent :=
   | GQuiet f c b => Some (GEQuiet f c b)
   end.
 
+(* candidate internal labels: only for subscriptions that are not dead (a dead one - un-registered,
+   wrapped channel closed - has no internal step left); only a candidate generator, the acceptor's
+   soundness does not depend on it *)
+Fixpoint undead_from (k : nat) (l : list sub) : list nat :=
+  match l with
+  | [] => []
+  | x :: t => if wclosed x && unsub x then undead_from (S k) t else k :: undead_from (S k) t
+  end.
+
 Definition gtaus (g : gstate) : list glabel :=
   flat_map (fun i => map GL [LDeliver i; LDrop i; LFwdTake i; LFwdPut i; LFwdClose i; LFwdAbort i; LUnsub i])
-           (range 0 (length (subs (gm g)))).
+           (undead_from 0 (subs (gm g))).
 
 Definition gvis (_ : gstate) (e : gevent) : list glabel :=
   match e with
